@@ -38,6 +38,7 @@ type Gen struct {
 	p Profile
 	// distribution counters, reported in the evidence
 	stats map[string]int
+	cliFocus string // C15: the <id> the next `info` should look at
 }
 
 func (g *Gen) count(k string) { g.stats[k]++ }
@@ -354,6 +355,7 @@ type imgInfo struct {
 	ids       []uint32
 	groups    []uint32
 	parts     []uint32 // IDs of partition objects
+	sysParts  []uint32 // … of type system (what SetPrimPart promotes)
 	ocis      []uint32
 	hasPrim   bool
 	free      int64
@@ -387,6 +389,8 @@ func inspect(f *sif.FileImage) imgInfo {
 			in.parts = append(in.parts, d.ID())
 			if _, pt, _, err := d.PartitionMetadata(); err == nil && pt == sif.PartPrimSys {
 				in.hasPrim = true
+			} else if err == nil && pt == sif.PartSystem {
+				in.sysParts = append(in.sysParts, d.ID())
 			}
 		}
 		if d.DataType() == sif.DataOCIBlob || d.DataType() == sif.DataOCIRootIndex {
